@@ -88,9 +88,13 @@ func (e *c20Evaluator) GenerationEvaluate(ctx context.Context, pop *genetics.Pop
 		}
 		return c20.evalErr
 	}
-	epoch.Solved = vBool("generation solved")
-	epoch.Champion = &genetics.Organism{Fitness: 1}
-	c20.log[len(c20.log)-1].solved = epoch.Solved
+	// like the shipped evaluators: the solved flag and the champion are written only on a win
+	won := vBool("generation solved")
+	if won {
+		epoch.Solved = true
+		epoch.Champion = &genetics.Organism{Fitness: 1}
+	}
+	c20.log[len(c20.log)-1].solved = won // what this evaluation reported, not what the record it was handed already said
 	return nil
 }
 
@@ -139,7 +143,11 @@ func c20StartGenome() *genetics.Genome {
 
 func vc20(maxRuns, maxGens int, observer, epochErrors bool) {
 	vRandUnscripted(true) // natively the real NewPopulation draws random weights the engine's stub does not
-	c20 = &c20State{evalErr: errors.New("evaluation failed"), epochErr: errors.New("epoch failed"), cancelErr: errors.New("context cancelled"), withEpochEr: epochErrors, cancelledAt: -1}
+	evalErr := errors.New("evaluation failed")
+	if vChoice("evaluator fails with its own context error", 2) == 1 {
+		evalErr = context.Canceled // e.g. a per-generation timeout context of the evaluator; the experiment context is alive
+	}
+	c20 = &c20State{evalErr: evalErr, epochErr: errors.New("epoch failed"), cancelErr: errors.New("context cancelled"), withEpochEr: epochErrors, cancelledAt: -1}
 	c20.pollCancel = vChoice("cancellation observed at a poll / external event", 2) == 0
 	if !c20.pollCancel && vBool("context cancelled before Execute is called") {
 		c20.cancelled, c20.cancelledAt = true, 0
